@@ -83,6 +83,21 @@ def swallows(t):
     return any(swallows(x) for x in t if isinstance(x, list))
 
 
+ABSORBING = ("Select", "Peek", "GreedyRange", "Lazy", "LazyStruct", "LazyArray", "LazyBound")
+
+
+def absorbed(stack):
+    """stack = construct methods at the moment the deviating operation was issued, innermost first.  True when a construct that is
+    documented to absorb the failure of what it ENCLOSES is strictly above the issuing construct (an operation issued by Select, Peek or
+    GreedyRange themselves - remembering and restoring the position - is not absorbed by them), or when the issuer is a require=False
+    terminated region reading its own next unit"""
+    if not stack:
+        return True     # no construct frame identified: no claim
+    if stack[0][0] == "NullTerminated":
+        return True
+    return any(cls in ABSORBING for cls, fn in stack[1:])
+
+
 def terms_for(tier, strict=False):
     b = INFO["bounds"][tier]
     out = [(t, "T1", b["L_T1"]) for t in G.tier1()] + [(t, "T2", b["L_T2"]) for t in G.tier2(strict)] + [(t, "T3", b["L_T3"]) for t in G.tier3(strict)] \
@@ -145,6 +160,14 @@ def extra_terms():
         ["Struct", [["n", G.I(1, True, "b")], ["v", ["Bitwise", ["BitsInteger", ["bin", "*", ["this", "n"], ["k", 8]], True, False]]]]],
         ["Struct", [["n", B], ["v", ["Bitwise", ["Struct", [["a", ["BitsInteger", ["path", ["_", "n"]], False, False]], ["r", ["GreedyBytes"]]]]]]]],
         ["Struct", [["o", G.I(1, True, "b")], ["v", ["Pointer", ["this", "o"], G.I(2, False, "b")]]]],
+        # positions taken from 8-byte fields: beyond what a stream can address (2**63 and more), and far negative
+        ["Struct", [["o", G.I(8, False, "b")], ["v", ["Pointer", ["this", "o"], B]]]],
+        ["Struct", [["o", G.I(8, True, "b")], ["v", ["Pointer", ["this", "o"], B]]]],
+        ["Struct", [["o", G.I(8, False, "b")], ["s", ["Seek", ["this", "o"], 0]], ["x", B]]],
+        ["Struct", [["o", G.I(8, False, "l")], ["s", ["Seek", ["this", "o"], 1]], ["x", B]]],
+        ["Struct", [["o", G.I(8, True, "b")], ["s", ["Seek", ["this", "o"], 2]], ["x", B]]],
+        ["Struct", [["o", G.I(8, False, "b")], ["e", ["OffsettedEnd", ["un", "-", ["this", "o"]], ["GreedyBytes"]]]]],
+        ["Struct", [["o", ["VarInt"]], ["v", ["Pointer", ["this", "o"], B]]]],
         ["Struct", [["o", G.I(1, True, "b")], ["w", B], ["v", ["Seek", ["this", "o"], ["this", "w"]]], ["x", B]]],
         ["Struct", [["k", G.I(1, True, "b")], ["v", ["OffsettedEnd", ["this", "k"], ["GreedyBytes"]]]]],
         ["Struct", [["n", B], ["v", ["RepeatUntil", ["ctxlenge", ["this", "n"]], B]]]],
@@ -328,10 +351,11 @@ def judge_fault(op, t, is_rigid, res, s, script, tsig, case):
                             "detail": "%s.%s_stream with stream deviation %s (trace %s) raised %s: %s" % (T.show(t), op, applied, s.trace[:12], res[1], res[2])}]
     if res[0] == "hang":
         return "hang", [{"sig": "C06/%s-fault-hang/%s" % (op, tsig), "case": case, "detail": "did not terminate under %s" % (applied,)}]
-    if op == "parse" and not is_rigid and res[0] == "ok" and all(dv == "raise" for _, _, dv in applied) and not swallows(t):
+    raising = all(dv in ("raise", "raise2") for _, _, dv in applied)
+    if op == "parse" and not is_rigid and res[0] == "ok" and raising and (not swallows(t) or not any(absorbed(st) for st in s.stacks)):
         return "silent", [{"sig": "C06/parse-raising-stream-silently-accepted/%s/%s" % ("+".join(kinds), tsig), "case": case,
-                           "detail": "%s.parse_stream: the stream operation(s) %s raised (trace %s), yet parse returned %r; nothing in this format "
-                                     "absorbs errors" % (T.show(t), applied, s.trace[:12], res[1])}]
+                           "detail": "%s.parse_stream: the stream operation(s) %s raised (trace %s; issued by %s), yet parse returned %r; nothing "
+                                     "that encloses the issuing construct absorbs errors" % (T.show(t), applied, s.trace[:12], [st[:1] for st in s.stacks], res[1])}]
     if is_rigid or op == "build":
         if res[0] == "ok":
             return "silent", [{"sig": "C06/%s-fault-silently-accepted/%s/%s" % (op, "+".join(kinds), tsig), "case": case,
